@@ -65,52 +65,48 @@ def decideAction (gens : List LGen) (path fmt digest : String) : String :=
     | some e => if e.digest == digest then "verified" else "failed"
     | none => "new"
 
-/-- `session.append_file_hash(file_path, size, mdate, fmt, digest)`; returns `action != "failed"` -/
-def appendFileHash (rootHist : Hist) (s : Session) (file : RelPath) (size : Nat) (fmt digest : String) :
-    Session × Bool :=
-  let (h, hrel) := route rootHist file
-  let p := posix hrel
-  let action := decideAction h.gens p fmt digest
-  let s := s.touch h.root
-  let nl := (s.get h.root).update p (some size) fun r =>
-    { r with entries := r.entries ++ [{ fmt := fmt, digest := digest, action := action }] }
-  (s.put nl, action != "failed")
+/-- the recorded formats that are verified in this run: those that are requested again, or — if none is — the first
+recorded one ("at least one of the previous generation hashes needs to be verified") -/
+def baseFormats (existing requested : List String) : List String :=
+  let carried := existing.filter (requested.contains ·)
+  if carried.isEmpty then existing.take 1 else carried
 
 /-- the formats for which `seal_file_path` computes digests -/
 def formatsToGenerate (existing requested : List String) : List String :=
-  let carried := existing.filter (requested.contains ·)
-  let base := match existing with
-    | [] => []
-    | e0 :: _ => if carried.isEmpty then [e0] else carried
-  requested.foldl appendNew base
+  requested.foldl appendNew (baseFormats existing requested)
 
-/-- `seal_file_path`: returns the session and the result dict format ↦ (digest, success) over the requested
-formats -/
+/-- The core of `seal_file_path` for one file against the generations of the history it belongs to: the entries that
+are appended to the file's record (in order) and the result dict format ↦ (digest, success) over the requested
+formats.  `dig f` is the digest of the file's current content in format `f`.
+
+First loop: every recorded format that is computed is checked against the history.  Second loop: the formats that
+are new for this file are only recorded if every check of the first loop succeeded. -/
+def sealEntries (gens : List LGen) (p : String) (dig : String → String) (requested : List String) :
+    List Entry × List (String × String × Bool) :=
+  let existing := existingFormats gens p
+  let toGen := formatsToGenerate existing requested
+  let act := fun f => decideAction gens p f (dig f)
+  let checked := existing.filter (toGen.contains ·)
+  let ents1 : List Entry := checked.map fun f => { fmt := f, digest := dig f, action := act f }
+  let verified := ents1.all fun e => e.action != "failed"
+  let res1 := (checked.filter (requested.contains ·)).map fun f => (f, dig f, act f != "failed")
+  let newF := toGen.filter fun f => !existing.contains f
+  let ents2 : List Entry := if verified then newF.map fun f => { fmt := f, digest := dig f, action := act f } else []
+  let res2 := (newF.filter (requested.contains ·)).map fun f => (f, dig f, verified && act f != "failed")
+  (ents1 ++ ents2, res1 ++ res2)
+
+/-- `seal_file_path`: route the file to its history, seal it there, append the entries to its record in the
+session -/
 def sealFile (H : HashFn) (rootHist : Hist) (s : Session) (file : RelPath) (content : Bytes)
     (requested : List String) : Session × List (String × String × Bool) :=
   let (h, hrel) := route rootHist file
-  let existing := existingFormats h.gens (posix hrel)
-  let toGen := formatsToGenerate existing requested
-  let size := content.length
-  -- existing formats first
-  let (s, verified, res) := existing.foldl (fun (acc : Session × Bool × List (String × String × Bool)) fmt =>
-      let (s, verified, res) := acc
-      if !toGen.contains fmt then acc
-      else
-        let d := H fmt content
-        let (s, ok) := appendFileHash rootHist s file size fmt d
-        (s, verified && ok, if requested.contains fmt then ainsert fmt (d, ok) res else res))
-    (s, true, [])
-  -- then the formats that are new for this file, only if everything recorded verified
-  let (s, res) := toGen.foldl (fun (acc : Session × List (String × String × Bool)) fmt =>
-      let (s, res) := acc
-      if existing.contains fmt then acc
-      else
-        let d := H fmt content
-        let (s, ok) := if verified then appendFileHash rootHist s file size fmt d else (s, false)
-        (s, if requested.contains fmt then ainsert fmt (d, ok) res else res))
-    (s, res)
-  (s, res)
+  let p := posix hrel
+  let (ents, res) := sealEntries h.gens p (fun f => H f content) requested
+  if ents.isEmpty then (s, res)
+  else
+    let s := s.touch h.root
+    let nl := (s.get h.root).update p (some content.length) fun r => { r with entries := r.entries ++ ents }
+    (s.put nl, res)
 
 /-! ## directory hashes -/
 
